@@ -171,6 +171,7 @@ type Evidence struct {
 
 // WriteEvidence writes /verif/evidence/<id>.json.
 func (r *Report) WriteEvidence(dir, tier string, seed int, wall float64, out Outcome, extra map[string]interface{}) error {
+	r.Assumptions = append(r.Assumptions, "go/packages + go/types resolve identifiers, callees and constants exactly as the Go compiler does for this build configuration; the repository uses no unsafe, cgo or reflection-based writes")
 	counts := r.Counts()
 	discharged := 0
 	distinct := map[string]bool{}
